@@ -20,6 +20,7 @@ from .common import rat, rats, rows, nats, natrows, eval_expect, close
 from . import recrng
 from .recrng import REC
 from . import binz as binzmod
+from . import absstate
 
 warnings.filterwarnings("ignore")
 
@@ -194,6 +195,12 @@ class ImplRun:
             rec["cold"] = ["<error %s>" % type(e).__name__]
         if rec["raised"] is None:
             rec["oracle"] = self._post_oracle(op, pre)
+        # the abstraction of the object graph after the step (also after a rejected call: nothing may have changed)
+        try:
+            rec["state"] = absstate.impl_state(self)
+        except Exception as e:  # noqa: BLE001
+            rec["state"] = None
+            rec["state_error"] = "%s: %s" % (type(e).__name__, str(e)[:200])
         return rec
 
     def _scaler_oracle(self, op, imp, out):
@@ -471,6 +478,19 @@ def parse_out(line):
 
 class Mismatch(Exception):
     pass
+
+
+def compare_state(op, rec, mout, stats):
+    """the refinement relation itself: abstraction of the real object graph = the model's state, after every step"""
+    if "state" not in mout:
+        return
+    if rec.get("state") is None:
+        raise Mismatch("state abstraction failed on the implementation: %s" % rec.get("state_error"))
+    try:
+        absstate.compare_state(rec["state"], absstate.parse_state(mout["state"]))
+    except absstate.StateMismatch as e:
+        raise Mismatch("state after %s%s: %s" % (op["op"], " (rejected)" if rec["raised"] else "", e))
+    stats["states_compared"] = stats.get("states_compared", 0) + 1
 
 
 def _canon_result(result, single_expected):
